@@ -2415,9 +2415,10 @@ impl Fs {
     /// List entries in a directory.
     /// Returns paths of files, directories, and symlinks that are direct children of the given path.
     pub(crate) fn dir_entries(&self, path: &Path) -> Vec<PathBuf> {
-        use std::collections::HashSet;
-
-        let mut entries: HashSet<PathBuf> = HashSet::new();
+        // Insertion-ordered set: the listing order must be a function of the
+        // filesystem state only (a std HashSet iterates in a per-instance
+        // random order, which made two identical runs list differently).
+        let mut entries: IndexSet<PathBuf> = IndexSet::new();
 
         // Add persisted files in this directory
         for file_path in self.persisted_files.keys() {
